@@ -44,7 +44,7 @@ class Item:
     __slots__ = ("data", "label", "tokens", "poison", "group")
 
 
-def build_pool(rng, u, reg, n):
+def build_pool(rng, u, reg, n, fams):
     pool = []
 
     def add(pel_or_bytes, label, poison=False, group=None, toks=None):
@@ -113,7 +113,7 @@ def build_pool(rng, u, reg, n):
             add(pel, "noplugins-creator", toks=toks)
     # context families: the SAME payload / ids under different contexts (drawer type, creator, SRC type, chip model), so
     # that anything remembered from one context and replayed in another shows up as history dependence
-    for fam in rng.sample(range(5), 2):
+    for fam in fams:
         if fam == 0:
             from vf import iogen, iomodels as im
             from io_drawer.drawer_type import MEX_DRAWER_TYPE, NIMITZ_DRAWER_TYPE
@@ -148,15 +148,20 @@ def build_pool(rng, u, reg, n):
             # one (section creator, component) pair met in different PLACES: as user data of that creator's own PEL, and as
             # extended user data carried inside PELs of other creators (who may or may not have a parser for the component)
             from vf import iogen
-            comp, sub = rng.choice([(0x2C00, 72), (0x2C00, 73), (0xE500, 1), (0xFA00, 7), (0x3000, 1)])
-            payload = bytes(rng.randrange(256) for _ in range(48)) if comp != 0xFA00 else b"K" + bytes(rng.randrange(256) for _ in range(20))
-            sec_creator = rng.choice("OBMX")
-            for pel_creator, ext in ((sec_creator, False), ("M", True), ("O", True), ("B", True), (sec_creator, False)):
-                pel, toks = mk(lambda: pm.Pel(pel_creator, pm.gen_ph(rng, u, pel_creator), pm.gen_uh(rng, pel_creator),
-                                              [pm.sec_ud(rng, u, pel_creator, comp, sub, 1, payload,
-                                                         ext_creator=sec_creator if ext else None, expect_mode="none"),
-                                               pm.gen_mt(rng, u, pel_creator)]))
-                add(pel, "placement:%s%04x-in-%s-%s" % (sec_creator, comp, pel_creator, "ED" if ext else "UD"), group="placement", toks=toks)
+            owners = {0x2C00: "M", 0xE500: "O", 0xFA00: "OBM", 0x3000: "O"}
+            combos = rng.sample([(0x2C00, 72), (0x2C00, 73), (0xE500, 1), (0xFA00, 7), (0x3000, 1)], 2)
+            for nth, (comp, sub) in enumerate(combos):
+                payload = bytes(rng.randrange(256) for _ in range(48)) if comp != 0xFA00 else b"K" + bytes(rng.randrange(256) for _ in range(20))
+                # once a section creator of any kind, once one that has NO parser of its own for the component (so that
+                # whatever is shown can only come from the section's own creator and component, never from its surroundings)
+                sec_creator = rng.choice("OBMX") if nth == 0 else rng.choice([c for c in "OBMX" if c not in owners[comp]])
+                for pel_creator, ext in ((sec_creator, False), ("M", True), ("O", True), ("B", True), (sec_creator, False)):
+                    pel, toks = mk(lambda: pm.Pel(pel_creator, pm.gen_ph(rng, u, pel_creator), pm.gen_uh(rng, pel_creator),
+                                                  [pm.sec_ud(rng, u, pel_creator, comp, sub, 1, payload,
+                                                             ext_creator=sec_creator if ext else None, expect_mode="none"),
+                                                   pm.gen_mt(rng, u, pel_creator)]))
+                    add(pel, "placement:%s%04x-in-%s-%s" % (sec_creator, comp, pel_creator, "ED" if ext else "UD"),
+                        group="placement%d" % nth, toks=toks)
         else:
             from vf.props import c20
             b0 = bytes(rng.randrange(256) for _ in range(8))
@@ -403,7 +408,17 @@ def run(spec, ctx):
         from vf.props import c20
         c20.load_chipdata("damaged")       # a truncated chip data file: the failure must be the same on every decode
         ctx.see("chipdata", "damaged")
-    pool = build_pool(rng, u, reg, spec["pool"])
+    # a shard with a damaged chip data file always has the hardware-diagnostics family in its pool (family 3), a shard with
+    # the full chip data every second time: what the chip data does to a decode must be there to be seen
+    # The context families are dealt out by shard number, not drawn: every family is in five or six of the fourteen pools
+    # at every seed.
+    i = spec["shard"]
+    fams = [i % 5, (i + 1 + (i // 5) % 3) % 5]
+    if i % 4 == 1 and 3 not in fams:      # a damaged chip data file must meet the hardware-diagnostics family
+        fams.append(3)
+    for f in fams:
+        ctx.see("context_family", f)
+    pool = build_pool(rng, u, reg, spec["pool"], fams)
     alltokens = {}
     for i, it in enumerate(pool):
         for t in it.tokens:
